@@ -145,6 +145,14 @@ type SharedInv struct {
 	Pkg  string
 }
 
+// FrameSet: a named, parameterised modifies set ("frameset name(p T, ...) = items").
+type FrameSet struct {
+	Name   string
+	Params []QVar
+	Items  []Expr
+	Pkg    string
+}
+
 type EnumDecl struct {
 	Spec, Type string
 	Props      []string
@@ -161,6 +169,7 @@ type CallSitesDecl struct {
 }
 
 type ContractDB struct {
+	FrameSets map[string]*FrameSet
 	SharedInv      map[string]*SharedInv
 	Enums          []*EnumDecl
 	CallSites      []*CallSitesDecl
@@ -187,7 +196,7 @@ type ContractDB struct {
 
 var clauseRe = regexp.MustCompile(`^(requires|ensures|invariant|assert)(\?)?(\[[^\]]*\])?(!)?\s*(.*)$`)
 
-var topKeywords = map[string]bool{"shared": true, "funcalias": true, "libframe": true, "enumerates": true, "callsites": true, "zeroglobal": true, "constglobal": true, "writes": true, "covers": true, "func": true, "ext": true, "iface": true, "spec": true, "ghost": true, "axiom": true, "sealed": true, "lemma": true, "pure": true, "class": true, "trusted": true}
+var topKeywords = map[string]bool{"frameset": true, "shared": true, "funcalias": true, "libframe": true, "enumerates": true, "callsites": true, "zeroglobal": true, "constglobal": true, "writes": true, "covers": true, "func": true, "ext": true, "iface": true, "spec": true, "ghost": true, "axiom": true, "sealed": true, "lemma": true, "pure": true, "class": true, "trusted": true}
 var subKeywords = map[string]bool{"ghostset": true, "property": true, "flags": true, "requires": true, "ensures": true, "modifies": true, "loop": true, "let": true, "params": true}
 
 func firstWord(s string) string {
@@ -463,6 +472,33 @@ func (db *ContractDB) parseFile(path, pkg string) error {
 			}
 			lm.E = e
 			db.Lemmas = append(db.Lemmas, lm)
+		case "frameset":
+			cur = nil
+			i := strings.Index(rest, "(")
+			j := matchParen(rest, i)
+			k := strings.Index(rest, "=")
+			if i < 0 || j < 0 || k < j {
+				return fail(l, "frameset name(p T, ...) = items")
+			}
+			fsd := &FrameSet{Name: strings.TrimSpace(rest[:i]), Pkg: pkg}
+			for _, p := range splitTop(rest[i+1 : j]) {
+				f := strings.Fields(p)
+				if len(f) != 2 {
+					return fail(l, "bad frameset parameter %q", p)
+				}
+				fsd.Params = append(fsd.Params, QVar{f[0], f[1]})
+			}
+			for _, it := range splitTop(rest[k+1:]) {
+				e, err := ParseExpr(it)
+				if err != nil {
+					return fail(l, "%v", err)
+				}
+				fsd.Items = append(fsd.Items, e)
+			}
+			if db.FrameSets == nil {
+				db.FrameSets = map[string]*FrameSet{}
+			}
+			db.FrameSets[fsd.Name] = fsd
 		case "shared":
 			cur = nil
 			// shared (*T).field ...
